@@ -1117,6 +1117,10 @@ func Retract(vm *VM, t Term, k Cont, env *Env) *Promise {
 			return Error(err)
 		}
 		raw := rulify(cp, nil)
+		if c.alt { // It's a part of the preceding clause.
+			ks[i] = func(context.Context) *Promise { return Bool(false) }
+			continue
+		}
 		ks[i] = func(_ context.Context) *Promise {
 			return Unify(vm, t, raw, func(env *Env) *Promise {
 				// The database may have been updated since the call. Look for the very clause in the current database.
@@ -1130,7 +1134,15 @@ func Retract(vm *VM, t Term, k Cont, env *Env) *Promise {
 				if j < 0 { // Already removed.
 					return Bool(false)
 				}
-				u.clauses, u.clauses[len(u.clauses)-1] = append(u.clauses[:j], u.clauses[j+1:]...), clause{}
+				n := j + 1
+				for n < len(u.clauses) && u.clauses[n].alt { // The other alternatives of a disjunctive body go with it.
+					n++
+				}
+				rest := append(u.clauses[:j], u.clauses[n:]...)
+				for m := len(rest); m < len(u.clauses); m++ {
+					u.clauses[m] = clause{}
+				}
+				u.clauses = rest
 				return k(env)
 			}, env)
 		}
@@ -2020,6 +2032,10 @@ func Clause(vm *VM, head, body Term, k Cont, env *Env) *Promise {
 			return Error(err)
 		}
 		r := rulify(cp, nil)
+		if c.alt { // It's a part of the preceding clause.
+			ks[i] = func(context.Context) *Promise { return Bool(false) }
+			continue
+		}
 		ks[i] = func(context.Context) *Promise {
 			return Unify(vm, atomIf.Apply(head, body), r, k, env)
 		}
